@@ -95,6 +95,8 @@ inline std::vector<FixedShape> fixedMenu(const Layout &l, int rh) {
     add("left-edge", 1, 2 * rh, x0 - 1 + 1, y0, obs);
     add("turned-block", rh, 1, x0 + W - 1, y0, obs, oW);  // placed 1 x rh
     add("zero-width", 0, rh, x0 + 2, y0, obs);
+    add("turned-long", 1, 3, x0 + 1, y0, obs, oE);            // raw 1x3, placed 3 wide x 1 high: the raw and the placed footprint cover different columns
+    add("turned-tall", 2 * rh, 1, x0 + W - 2, y0, obs, oFW);  // raw (2rh)x1, placed 1 wide x 2rh high: covers one column of two rows
   }
   return m;
 }
@@ -271,6 +273,39 @@ inline std::vector<std::vector<NetSpec>> netMenu(const Spec &s, int level) {
     out.push_back({d});
   }
   return out;
+}
+
+// Primer calls for the worker processes (see verif.hpp): legalizations / detailed placements of circuits with restrictive
+// polarities, many cells, a fixed cell in front, a movable macro.
+inline std::vector<std::function<void()>> legalizationPrimers() {
+  auto mk = [](int variant) {
+    return [variant]() {
+      Spec s;
+      int rh = 2;
+      for (int i = 0; i < 4; ++i) s.rows.push_back(mkRow(0, 14, i, rh, i % 2 ? oFS : oN));
+      int n = variant == 1 ? 6 : 5;
+      for (int i = 0; i < n; ++i) {
+        CellSpec c;
+        c.w = 1 + i % 3; c.h = rh; c.x = 2 * i; c.y = (i % 4) * rh;
+        c.polarity = variant == 1 ? 3 : (variant == 2 ? 4 : (i % 2 ? 2 : 1));
+        s.cells.push_back(c);
+      }
+      if (variant >= 2) {
+        CellSpec f; f.w = 2; f.h = rh; f.x = 11; f.y = 0; f.fixed = true; f.obstruction = variant == 2;
+        s.cells.insert(s.cells.begin(), f);
+        CellSpec m; m.w = 2; m.h = 2 * rh; m.x = 6; m.y = 0;
+        s.cells.push_back(m);
+      }
+      NetSpec nt; nt.pins = {{0, 0, 0}, {(int)s.cells.size() - 1, 1, 1}};
+      s.nets = {nt};
+      Circuit c = build(s);
+      ColoquinteParameters p(3, 0);
+      guarded([&] { c.legalize(p); });
+      Circuit d = build(s);
+      guarded([&] { d.placeDetailed(p); });
+    };
+  };
+  return {std::function<void()>(), mk(1), mk(2), mk(3)};
 }
 
 }  // namespace vt
